@@ -40,62 +40,6 @@ def strip(guards):
     return [g for g in guards if not (isinstance(g, Op) and g.op in ("in-loop", "loop-exit")) and not (isinstance(g, Op) and g.op == "not" and isinstance(g.args[0], Op) and g.args[0].op == "loop-exit")]
 
 
-def lnotab_summary(T, f, dup_lines):
-    F = T.F
-    code = code_instance(F, "xdis.codetype.code30", "Code3", "co_lnotab")
-    import ast as _ast
-    args, kw = [code], {"dup_lines": dup_lines}
-    from ..fold import is_generator
-    if not is_generator(f.node):
-        # a bound finder may be a thin wrapper that returns the generator of another function with extra constant arguments
-        sp0 = Spec(F)
-        out0 = sp0.run(f, args, kw)
-        gens = [e for e in sp0.effects if e.kind == "gen"]
-        rets = [l.value for g_, l in leaves(out0) if isinstance(l, Ret)]
-        if len(gens) == 1 and len(rets) == 1 and isinstance(rets[0], Sym) and rets[0].kind == "gen" and rets[0].info.get("func") is not None:
-            f, args, kw = rets[0].info["func"], list(rets[0].info["args"]), dict(rets[0].info["kw"])
-    sp = Spec(F)
-    out = sp.run(f, args, kw)
-    ls = body_loop(sp, lambda l: isinstance(l.cond, Op) and "zip" in show(l.cond))
-    res = {"spec": sp, "loop": ls, "out": out}
-    if ls is None:
-        res["error"] = "no loop over (byte increment, line delta) pairs found"
-        return res
-    cond = show(ls.cond)
-    res["pairs"] = cond
-    ys = [e for e in ls.effects if e.kind == "yield"]
-    res["yields"] = ys
-    falls = [(g, l) for g, l in leaves(ls.out) if isinstance(l, (Fall, Cont))]
-    res["falls"] = falls
-    # element symbols
-    e0 = Sym("%s.0:elem" % ls.tag)
-    e1 = Sym("%s.1:elem" % ls.tag)
-    res["e0"], res["e1"] = e0, e1
-    # roles
-    off = line = last = None
-    for g, l in falls:
-        if any(repr(x) == repr(e0) for x in g):  # path where the address advances
-            for name, hv in ls.head.items():
-                if not isinstance(name, str) or not isinstance(hv, Sym):
-                    continue
-                nv = l.env.get(name)
-                if repr(nv) == repr(add(hv, e0)):
-                    off = (name, hv)
-    for g, l in falls:
-        for name, hv in ls.head.items():
-            if not isinstance(name, str) or not isinstance(hv, Sym) or (off and name == off[0]):
-                continue
-            nv = l.env.get(name)
-            d_signed = Guard(Op("GtE", e1, 128), add(add(e1, hv), -256), add(e1, hv))
-            if repr(nv) == repr(add(hv, e1)):
-                line = (name, hv, "unsigned")
-            elif repr(nv) == repr(d_signed):
-                line = (name, hv, "signed")
-    res["off"], res["line"] = off, line
-    return res
-
-
-
 def lnotab_rules(rep, T, f, versions, universe):
     """R1/R2 for one bound lnotab finder and the versions whose tables bind it.  Decided independently of how the finder is written (wrapper, helper generator,
     loop form): it is specialised on a two-pair co_lnotab of ranged symbolic bytes (interval-guided unrolling, xv/linetab.py), its yields are collected, and the
@@ -260,18 +204,10 @@ def run(rep, tier):
     sp = Spec(F, hooks=[hook], opaque_funcs={"parse_exception_table"})
     sp.call(B, [Sym("x"), T.table_for_version("3.8")], {}, None, {})
     dl = seen.get("kw", {}).get("dup_lines", seen.get("args", [None, False])[1] if len(seen.get("args", [])) > 1 else False)
-    r2 = lnotab_summary(T, f, dl if isinstance(dl, bool) else False)
-    extra = None
-    if "error" not in r2 and r2["yields"] and r2["line"]:
-        gs = [g for g in strip(r2["yields"][0].guards) if "len(table)" not in show(g)]
-        extra = []
-        for g in gs:
-            if repr(g) == repr(r2["e0"]):
-                continue
-            ds = disjuncts(g)
-            extra.extend(show(d) for d in ds if not (isinstance(d, Op) and d.op == "NotEq"))
-    rep.ob("R7", "xdis.bytecode.Bytecode.__init__", "default-dup_lines-guard", isinstance(dl, bool) and not extra, expected="line != lastline only (dup_lines False)",
-           derived={"dup_lines passed": show(dl), "extra disjuncts": extra},
+    # what dup_lines=True adds to dis's answer is decided in R2 (two-pairs(dup_lines=True): one extra entry per real address increment below 255 on an unchanged
+    # line); the default therefore agrees with dis exactly when it is False
+    rep.ob("R7", "xdis.bytecode.Bytecode.__init__", "default-dup_lines-guard", dl is False, expected="line != lastline only (dup_lines False)",
+           derived={"dup_lines passed": show(dl)},
            msg="Bytecode passes dup_lines=%s to findlinestarts by default: instructions inside a long single line get a starts_line that dis does not report" % show(dl))
     # ---------------------------------------------------------------- R3 Code310.co_lines
     c310 = code_instance(F, "xdis.codetype.code310", "Code310", "co_linetable")
